@@ -1,5 +1,7 @@
 import Sheens.Driver.Common
 import Sheens.Oracle
+import Sheens.GoRun
+import Sheens.Gen.GoAst
 
 /-! Driver op `match`: model outcomes over all key orders, comparison with the
 implementation's outcomes, and the property oracles evaluated on the
@@ -64,6 +66,26 @@ def goOutcome (j : Json) : String × Option (List Bs) :=
 
 def variantCap : Nat := 720
 
+/-- how many key orders of a case the translated matcher is run on -/
+def trVariants : Nat := 12
+
+def trFuel : Nat := 1000000
+
+/-- outcome of the *translated* matcher (the program `go2lean` regenerated from match/match.go, run by
+    the interpreter of `GoSem.lean`) in the vocabulary of `outcomeStr` -/
+def trOutcome (r : Go.RunRes) : String :=
+  match r with
+  | .ok bss => "ok:" ++ toString (canonBss bss)
+  | .err t =>
+    if t.startsWith "can't have a variable as a key" then "err:badPropVar"
+    else if t.startsWith "multiple variables" then "err:multiVar"
+    else if t.startsWith "repeated variables" then "err:repeatedVar"
+    else if t == "UnknownPatternType" then "err:unknownPatternType"
+    else "err:" ++ t
+  | .fail .fuel => "diverge"
+  | .fail (.panic m) => "panic:" ++ m
+  | .fail (.stuck m) => "stuck:" ++ m
+
 def handleMatch (j : Json) : Json :=
   let p := getV j "p"
   let f := getV j "f"
@@ -88,10 +110,15 @@ def handleMatch (j : Json) : Json :=
     | none => true
   -- C07: the call returned (a result or an error): it neither killed the process nor panicked
   let totalOk := (getArr j "go").all (fun g => (getObj? g "crash").isNone && (getObj? g "panic").isNone)
+  -- the translated matcher against the hand-written model, key order by key order
+  let trDiffs := (pvs.take trVariants).filterMap (fun p' =>
+    let m := outcomeStr (matchTop p' f bs)
+    let t := trOutcome (Go.runMatch trFuel Gen.GoAst.matchProg p' f bs)
+    if m == t then none else some (Json.mkObj [("p", ofV p'), ("model", m), ("translated", t)]))
   let feats := matchFeatures p f bs outs
   let nontrivial := feats.any (fun s => s == "var" || s == "arr" || s == "obj")
   Json.mkObj [
-    ("corr", corrOk), ("capped", capped), ("inDomain", inDomain),
+    ("corr", corrOk), ("tr", trDiffs.isEmpty), ("trDiff", (trDiffs.head?).getD Json.null), ("capped", capped), ("inDomain", inDomain),
     ("sound", soundOk), ("det", detOk), ("modelDet", modelDet), ("planted", plantedOk),
     ("model", jstrs modelSet), ("go", jstrs goSet),
     ("feat", jstrs feats), ("nontrivial", nontrivial),
